@@ -1249,10 +1249,10 @@ package go_clipper2
 //@   loop 0 step [routing] i == old(i) + 1 && (old(c.outrecList[i].pts == nil) ==> (same(*solutionClosed, old(*solutionClosed)) && same(*solutionOpen, old(*solutionOpen)))) && (old(c.outrecList[i].pts != nil && c.outrecList[i].isOpen) ==> same(*solutionClosed, old(*solutionClosed))) && (old(c.outrecList[i].pts != nil && !c.outrecList[i].isOpen) ==> same(*solutionOpen, old(*solutionOpen)))
 //@   ensures [success] result
 
-//@ func clipperBase.recursiveCheckOwners
+//@ func clipperBase.recursiveCheckOwners variant addedonce
 //@   props C04
 //@   nosafety
-//@   requires outrec != nil
+//@   requires outrec != nil && polypath != nil
 //@   ensures [added-once] old(outrec.polypath) != nil ==> outrec.polypath == old(outrec.polypath)
 
 // ---------------------------------------------------------------------------------
@@ -1919,3 +1919,39 @@ package go_clipper2
 //@   props C01
 //@   pure
 //@   trusted
+
+// PolyTree construction: a record is attached below its owner, and the recursion into the owner
+// only happens for owners whose bounds are known to be non-empty (an unbounded owner would return at
+// once without a tree node, and the child would be attached to a nil node)
+//@ spec rectEmpty(r Rect64) bool = r.bottom <= r.top || r.right <= r.left
+
+//@ func clipperBase.checkBounds
+//@   props C04 C03
+//@   trusted
+//@   ensures [true-means-bounded] result ==> (outrec.pts != nil && !rectEmpty(outrec.bounds))
+//@   ensures [owners-of-existing-records-kept] forallp(r, OutRec, fresh(r) || r.owner == old(r.owner))
+
+//@ func clipperBase.checkBounds variant body
+//@   props C04 C03
+//@   nosafety
+//@   requires outrec != nil
+//@   ensures [no-ring-no-bounds] old(outrec.pts) == nil ==> !result
+//@   ensures [known-bounds-kept] (old(outrec.pts) != nil && !rectEmpty(old(outrec.bounds))) ==> (result && outrec.bounds == old(outrec.bounds) && outrec.pts == old(outrec.pts))
+
+//@ func clipperBase.checkSplitOwner
+//@   props C04 C03
+//@   nosafety
+//@   requires outrec != nil
+//@   ensures [owner-found-is-bounded] result ==> (outrec.owner != nil && outrec.owner.pts != nil && !rectEmpty(outrec.owner.bounds))
+
+//@ func clipperBase.recursiveCheckOwners
+//@   props C04 C03
+//@   nosafety
+//@   requires outrec != nil && polypath != nil && outrec.polypath == nil && !rectEmpty(outrec.bounds)
+//@   ensures [attached] outrec.polypath != nil
+
+//@ func clipperBase.recursiveCheckOwners variant nothingtodo
+//@   props C04 C03
+//@   nosafety
+//@   requires outrec != nil && (outrec.polypath != nil || rectEmpty(outrec.bounds))
+//@   ensures [untouched] outrec.polypath == old(outrec.polypath) && outrec.owner == old(outrec.owner)
